@@ -31,9 +31,17 @@ STATES = {
     'Sta7': ('requestor', [U(convs.RQ_SPEC), B(convs.AC_SPEC), U(convs.REL_RQ)], True),
     'Sta8': ('acceptor', [B(convs.RQ_SPEC), U(convs.AC_SPEC), B(convs.REL_RQ)], True),
     'Sta13': ('acceptor', [B(convs.RQ_SPEC), U(convs.AC_SPEC), U(convs.ABORT_SU)], False),
+    # a DIMSE message half received / the release-collision states
+    'Sta6-midmsg': ('acceptor', [B(convs.RQ_SPEC), U(convs.AC_SPEC),
+                                 ('burst', [refpdu.enc_pdu({'t': 4, 'r': 0, 'pdvs': [{'id': 3, 'data': b'\x01' + b'\x00\x00\x00\x00\x04\x00\x00\x00'}]})])], True),
+    'Sta9': ('requestor', [U(convs.RQ_SPEC), B(convs.AC_SPEC), U(convs.REL_RQ), B(convs.REL_RQ)], True),
+    'Sta10': ('acceptor', [B(convs.RQ_SPEC), U(convs.AC_SPEC), U(convs.REL_RQ), B(convs.REL_RQ)], True),
+    'Sta11': ('requestor', [U(convs.RQ_SPEC), B(convs.AC_SPEC), U(convs.REL_RQ), B(convs.REL_RQ), U(convs.REL_RP)], True),
+    'Sta12': ('acceptor', [B(convs.RQ_SPEC), U(convs.AC_SPEC), U(convs.REL_RQ), B(convs.REL_RQ), B(convs.REL_RP)], True),
 }
 STATE_NAMES = sorted(STATES)
-EXPECT_STATE = {'Sta2': 2, 'Sta2-accepting': 2, 'Sta3': 3, 'Sta5': 5, 'Sta6-acc': 6, 'Sta6-req': 6, 'Sta7': 7, 'Sta8': 8, 'Sta13': 13}
+EXPECT_STATE = {'Sta2': 2, 'Sta2-accepting': 2, 'Sta3': 3, 'Sta5': 5, 'Sta6-acc': 6, 'Sta6-req': 6, 'Sta7': 7, 'Sta8': 8, 'Sta13': 13,
+                'Sta6-midmsg': 6, 'Sta9': 9, 'Sta10': 10, 'Sta11': 11, 'Sta12': 12}
 
 
 def contexts():
@@ -132,7 +140,8 @@ def run_stream(state, stream, mode=0, file_backed=True):
                                       (mutate.invalid_pdata(frames[0]) and state != 'Sta13'))
     if hostile_first:
         # PDUs written after the prefix
-        npre = {'Sta2': 0, 'Sta2-accepting': 0, 'Sta3': 0, 'Sta5': 1, 'Sta6-acc': 1, 'Sta6-req': 1, 'Sta7': 2, 'Sta8': 1, 'Sta13': 2}[state]
+        npre = {'Sta2': 0, 'Sta2-accepting': 0, 'Sta3': 0, 'Sta5': 1, 'Sta6-acc': 1, 'Sta6-req': 1, 'Sta7': 2, 'Sta8': 1, 'Sta13': 2,
+                'Sta6-midmsg': 1, 'Sta9': 2, 'Sta10': 2, 'Sta11': 3, 'Sta12': 2}[state]
         after = pdus[npre:]
         if not after or after[0]['t'] != 7:
             raise Violation('C12:no-abort', '%s: undecodable PDU (type %02XH, %d body bytes) not answered with A-ABORT; '
@@ -329,7 +338,7 @@ def run_atheris(ctx, shards, runs):
 
 def run(ctx):
     warnings.simplefilter('ignore')
-    ctx.rule = ('for each of 9 protocol-state prefixes (Sta2 with a silent and with an accepting local user, 3, 5, 6 both roles, 7, 8, 13): structure-aware mutations '
+    ctx.rule = ('for each of 14 protocol-state prefixes (Sta2 with a silent and with an accepting local user, 3, 5, 6 both roles and mid-message, 7, 8, the collision states 9-12, 13): structure-aware mutations '
                 'of 9 valid PDUs (truncation with/without fixed length, every length field set to 0/1/len-1/len+1/'
                 'FFFF/FFFFFFFF, type bytes at every nesting level, control header, context id, non-ASCII bytes), 20 '
                 'semantically hostile P-DATA-TF PDUs, Hypothesis random mixes of garbage / valid / bit-flipped PDUs, '
